@@ -158,8 +158,10 @@ func runS1(t *testing.T, r *rep.Reporter, env instrEnv, ys yieldStats) {
 	for i := 0; i < n0; i++ {
 		idx := baseS1d0 + i
 		r.Run(idx, fmt.Sprintf("s1-d0-%d", i), func(c *rep.Case) {
-			p := prng.New(r.Seed(), uint64(idx), "c12/s1")
-			s1Case(c, r, ys, p, genS1(p), stressPlan(p))
+			onReplayRepeat(r, c, 300, func() {
+				p := prng.New(r.Seed(), uint64(idx), "c12/s1")
+				s1Case(c, r, ys, p, genS1(p), stressPlan(p))
+			})
 		})
 	}
 	// d=1: exhaustive over timewheel.go sites x occurrence 1..4 x repetitions
@@ -172,8 +174,10 @@ func runS1(t *testing.T, r *rep.Reporter, env instrEnv, ys yieldStats) {
 				k++
 				site, occ := site, occ
 				r.Run(idx, fmt.Sprintf("s1-d1-%s#%d-r%d", site, occ, rp), func(c *rep.Case) {
-					p := prng.New(r.Seed(), uint64(idx), "c12/s1")
-					s1Case(c, r, ys, p, genS1(p), planSpec{D: 1, Points: []verifkit.PlanPoint{{Site: site, Occ: occ}}})
+					onReplayRepeat(r, c, 300, func() {
+						p := prng.New(r.Seed(), uint64(idx), "c12/s1")
+						s1Case(c, r, ys, p, genS1(p), planSpec{D: 1, Points: []verifkit.PlanPoint{{Site: site, Occ: occ}}})
+					})
 				})
 			}
 		}
@@ -190,8 +194,10 @@ func runS1(t *testing.T, r *rep.Reporter, env instrEnv, ys yieldStats) {
 			k++
 			pr := pr
 			r.Run(idx, fmt.Sprintf("s1-d2-%s#%d+%s#%d-r%d", pr[0].Site, pr[0].Occ, pr[1].Site, pr[1].Occ, rp), func(c *rep.Case) {
-				p := prng.New(r.Seed(), uint64(idx), "c12/s1")
-				s1Case(c, r, ys, p, genS1(p), planSpec{D: 2, Points: []verifkit.PlanPoint{pr[0], pr[1]}})
+				onReplayRepeat(r, c, 300, func() {
+					p := prng.New(r.Seed(), uint64(idx), "c12/s1")
+					s1Case(c, r, ys, p, genS1(p), planSpec{D: 2, Points: []verifkit.PlanPoint{pr[0], pr[1]}})
+				})
 			})
 		}
 	}
